@@ -260,6 +260,8 @@ class Reader(BaseValidator):
         """
         self.accepted_rows_count = 0
         self.rejected_rows_count = 0
+        # Start at the first row again in case the rows have already been read before.
+        self._location = errors.Location(self._location.file_path, has_cell=True)
         for check in self.cid.check_map.values():
             check.reset()
         header_row_count = self._cid.data_format.header
